@@ -701,6 +701,76 @@ def _syn(j, m, nl, var):
     return True     # the property speaks about reported syntax errors only
 
 
+# ---------------------------------------------------------------- errors the engine itself raises at render time
+# A filter or test that does not exist may be named inside a conditional (the check is deferred to render time); the error
+# must point at the line that uses it.
+D_USES = ["{{ v|nofilter }}", "{{ v|nofilter(1)|upper }}", "{% if v is notest %}y{% endif %}", "{{ 1 if v is notest(2) else 0 }}", "{{ (v|nofilter) if go else '' }}",
+          "{% filter nofilter %}x{% endfilter %}", "{% set q = v|nofilter %}", "{% for i in v|nofilter %}{% endfor %}", "{% for i in [1] if i is notest %}{% endfor %}"]
+D_SHAPES = ["top", "macro", "block", "include", "callblock", "loop"]
+
+
+def _deferred_sources(ui, shape, pad):
+    use = "{% if go %}" + D_USES[ui] + "{% endif %}"
+    lines = ["L%d {{ 1 }}" % i for i in range(pad)]
+    extra = {}
+    if shape == "top":
+        body = lines + [use]
+        errfile, errline = "main", len(body)
+    elif shape == "macro":
+        body = ["{% macro m() %}"] + lines + [use, "{% endmacro %}", "{{ m() }}"]
+        errfile, errline = "main", 1 + pad + 1
+    elif shape == "block":
+        extra["base"] = "B\n{% block b %}{% endblock %}\n"
+        body = ["{% extends 'base' %}", "{% block b %}"] + lines + [use, "{% endblock %}"]
+        errfile, errline = "main", 2 + pad + 1
+    elif shape == "include":
+        extra["inc"] = "\n".join(lines + [use])
+        body = ["x", "{% include 'inc' %}"]
+        errfile, errline = "inc", pad + 1
+    elif shape == "callblock":
+        body = ["{% macro w() %}{{ caller() }}{% endmacro %}", "{% call w() %}"] + lines + [use, "{% endcall %}"]
+        errfile, errline = "main", 2 + pad + 1
+    else:
+        body = ["{% for z in [1] %}"] + lines + [use, "{% endfor %}"]
+        errfile, errline = "main", 1 + pad + 1
+    extra["main"] = "\n".join(body)
+    return extra, errfile, errline
+
+
+def deferred_ok(use: int, shape: int, pad: int, asyncm: bool) -> bool:
+    """
+    pre: 0 <= use < len(D_USES) and 0 <= shape < len(D_SHAPES) and 0 <= pad <= 3
+    post: _
+    """
+    from jinja2 import FunctionLoader
+    from jinja2.exceptions import TemplateRuntimeError, TemplateAssertionError
+    ui = pick(use, len(D_USES))
+    sh = D_SHAPES[pick(shape, len(D_SHAPES))]
+    pd = pick(pad, 4)
+    am = pickb(asyncm)
+    with NoTracing():
+        srcs, errfile, errline = _deferred_sources(ui, sh, pd)
+        env = Environment(loader=FunctionLoader(lambda n: (srcs[n], "/c35d/" + n, None) if n in srcs else None), enable_async=am)
+        try:
+            t = env.get_template("main")
+        except TemplateAssertionError:
+            return True     # this use is checked at compile time (not deferred): nothing to locate at render time
+        # not taken: renders fine
+        try:
+            drive(t.render_async(go=False, v=1)) if am else t.render(go=False, v=1)
+        except TemplateAssertionError:
+            return True     # compile-time check of a lazily compiled included template
+        except Exception:
+            return False
+        try:
+            drive(t.render_async(go=True, v=1)) if am else t.render(go=True, v=1)
+        except (TemplateRuntimeError, TemplateAssertionError) as e:
+            # (an included template is compiled when it is first included: its compile-time check surfaces here too)
+            frames = [(fr.f_code.co_filename, ln) for fr, ln in traceback.walk_tb(e.__traceback__) if fr.f_code.co_filename.startswith("/c35d/")]
+            return len(frames) > 0 and frames[-1] == ("/c35d/" + errfile, errline)
+        return False
+
+
 def conditions(tier, seed):
     thorough = tier == "thorough"
     to = 300 if thorough else 60
@@ -731,4 +801,10 @@ def conditions(tier, seed):
                             witnesses=[[1, 0, 0, 0], [n, len(g) - 1, 3, 1], [max(1, n // 2), len(g) // 2, 2, 0]],
                             bounds=f"skeleton '{sk}': malformed slot j in 1..{n} x {len(g)} malformations x 4 line-break forms x "
                                    "{default, trim_blocks+lstrip_blocks}"))
+    out.append(Cond("deferred unknown filter / test errors", "deferred_ok", mode="B", param={}, timeout=100 if tier != "thorough" else 300,
+                    witnesses=[[0, 0, 2, False], [2, 1, 1, True], [3, 2, 0, False], [4, 3, 3, False], [5, 4, 1, True], [8, 5, 2, False]],
+                    bounds=f"{len(D_USES)} uses of a missing filter/test inside a conditional x {len(D_SHAPES)} placements (top level, macro, child block, included template, call block, loop) x 0..3 preceding lines x sync/async; innermost template frame == (file, line of the use)"))
+    out.append(Cond("deferred unknown filter / test errors", "deferred_ok", mode="B", param={}, timeout=100 if tier != "thorough" else 300,
+                    witnesses=[[0, 0, 2, False], [2, 1, 1, True], [3, 2, 0, False], [4, 3, 3, False], [5, 4, 1, True], [8, 5, 2, False]],
+                    bounds=f"{len(D_USES)} uses of a missing filter/test inside a conditional x {len(D_SHAPES)} placements (top level, macro, child block, included template, call block, loop) x 0..3 preceding lines x sync/async; innermost template frame == (file, line of the use)"))
     return out
